@@ -3,6 +3,7 @@ package props
 import (
 	"bytes"
 	"crypto/ed25519"
+	"filippo.io/age/plugin"
 	"fmt"
 	"io"
 	"os"
@@ -1113,6 +1114,160 @@ func c15Gen(t *rapid.T) c15Case {
 	return c
 }
 
+// plugin keys through the command line: the result is complete iff the plugin did its part
+type c15Plug struct {
+	Op       string `json:"op"`       // enc | dec
+	Behave   string `json:"behave"`   // ok | error | nothing | dies | absent
+	Out      string `json:"out"`      // new | stdout | existing
+	PlainLen int    `json:"plainLen"` // plaintext length
+	Armor    bool   `json:"armor"`
+}
+
+func c15CheckPlug(c c15Plug, st *stats.Run) error {
+	bin := os.Getenv("VERIF_BIN")
+	if bin == "" {
+		return nil
+	}
+	dir, err := os.MkdirTemp(".", "c15g-")
+	if err != nil {
+		return pbt.Failf("C15/harness", "%v", err)
+	}
+	dir, _ = filepath.Abs(dir)
+	defer os.RemoveAll(dir)
+	plain := hx.PRG(21, c.PlainLen)
+	fk := hx.PRG(22, 16)
+	script := &hx.PlugScript{}
+	switch {
+	case c.Behave == "error":
+		script.Steps = []hx.PlugStep{{Raw: "-> error internal\n" + refage.B64([]byte("the plugin refuses")) + "\n"}, {Raw: "-> done\n\n", NoReply: true}}
+	case c.Behave == "nothing":
+		script.Steps = []hx.PlugStep{{Raw: "-> done\n\n", NoReply: true}}
+	case c.Behave == "dies":
+		script.Steps = []hx.PlugStep{{CloseNow: true}}
+	case c.Op == "enc":
+		script.Steps = []hx.PlugStep{{Raw: "-> recipient-stanza 0 sim arg\n" + refage.B64(hx.PRG(23, 32)) + "\n"}, {Raw: "-> done\n\n", NoReply: true}}
+	default:
+		script.Steps = []hx.PlugStep{{Raw: "-> file-key 0\n" + refage.B64(fk) + "\n"}, {Raw: "-> done\n\n", NoReply: true}}
+	}
+	pdir := filepath.Join(dir, "plugins")
+	if c.Behave != "absent" {
+		if err := hx.InstallPlugin(dir, pdir, "sim", script); err != nil {
+			return pbt.Failf("C15/harness", "%v", err)
+		}
+	} else {
+		os.MkdirAll(pdir, 0o755)
+	}
+	work := filepath.Join(dir, "work")
+	os.MkdirAll(work, 0o755)
+	var args []string
+	if c.Op == "enc" {
+		os.WriteFile(filepath.Join(work, "in.dat"), plain, 0o644)
+		args = []string{"-r", plugin.EncodeRecipient("sim", []byte("recipient data"))}
+		if c.Armor {
+			args = append(args, "-a")
+		}
+	} else {
+		f := refage.Build(fk, hx.PRG(24, 16), []refage.Stanza{{Type: "sim", Args: []string{"arg"}, Body: hx.PRG(23, 32)}}, refage.CanonicalChunks(plain))
+		file := f.Bytes()
+		if c.Armor {
+			file = []byte(refage.Armor(file))
+		}
+		os.WriteFile(filepath.Join(work, "in.dat"), file, 0o644)
+		os.WriteFile(filepath.Join(work, "key.txt"), []byte(plugin.EncodeIdentity("sim", []byte("identity data"))+"\n"), 0o600)
+		args = []string{"-d", "-i", "key.txt"}
+	}
+	existing := []byte("previous content\n")
+	switch c.Out {
+	case "new":
+		args = append(args, "-o", "out.dat")
+	case "existing":
+		os.WriteFile(filepath.Join(work, "out.dat"), existing, 0o640)
+		args = append(args, "-o", "out.dat")
+	}
+	args = append(args, "in.dat")
+	ok := c.Behave == "ok"
+	st.Case(!ok || c.Out != "stdout", stats.HashJSON(c), "op=plugin-"+c.Op, "plugin:behave="+c.Behave, "out="+c.Out)
+	st.Sample("plugin/"+c.Op+"/"+c.Behave, c)
+	code, stdout, stderr := runCLI(work, []string{"PATH=" + pdir, "HOME=" + work, hx.PlugEnv + "=" + dir}, nil, filepath.Join(bin, "age"), args...)
+	if code == -2 {
+		st.Label("inconclusive-timeout")
+		return nil
+	}
+	desc := fmt.Sprintf("age %s with a plugin that %s: exit status %d, stderr %q", strings.Join(args, " "), map[string]string{"ok": "does its part", "error": "reports an error", "nothing": "returns nothing", "dies": "exits at once", "absent": "is not installed"}[c.Behave], code, trunc([]byte(stderr)))
+	delivered := []byte(stdout)
+	onDisk, rerr := os.ReadFile(filepath.Join(work, "out.dat"))
+	if c.Out != "stdout" {
+		delivered = onDisk
+	}
+	if !ok {
+		if code == 0 {
+			return pbt.Failf("C15/exit0-on-failure", "%s", desc)
+		}
+		switch c.Out {
+		case "new":
+			if rerr == nil && (c.Op == "dec" || len(onDisk) > 0) {
+				return pbt.Failf("C15/output-touched-on-refusal", "%s; the -o file was created (%d bytes)", desc, len(onDisk))
+			}
+		case "existing":
+			if !bytes.Equal(onDisk, existing) && c.Op == "dec" {
+				return pbt.Failf("C15/output-touched-on-refusal", "%s; the existing -o file was modified", desc)
+			}
+		case "stdout":
+			if len(stdout) != 0 && c.Op == "dec" {
+				return pbt.Failf("C15/output-not-prefix", "%s; %d bytes were written to standard output", desc, len(stdout))
+			}
+		}
+		return nil
+	}
+	if code != 0 {
+		return pbt.Failf("C15/nonzero-on-success", "%s", desc)
+	}
+	if c.Op == "dec" {
+		if !bytes.Equal(delivered, plain) {
+			return pbt.Failf("C15/exit0-incomplete-output", "%s; %d bytes delivered, the plaintext has %d", desc, len(delivered), len(plain))
+		}
+		return nil
+	}
+	// encryption: the file key the plugin was given must open what was delivered
+	var got []byte
+	for _, e := range hx.ReadTranscript(dir) {
+		if e.Kind != "phase1" {
+			continue
+		}
+		rest := []byte(e.Data)
+		for len(rest) > 0 {
+			sz, r2, perr := refage.ParseStanza(rest)
+			if perr != nil {
+				break
+			}
+			rest = r2
+			if sz.Type == "wrap-file-key" {
+				got = sz.Body
+			}
+		}
+	}
+	file := delivered
+	if c.Armor {
+		b, derr := refage.Dearmor(string(file))
+		if derr != nil {
+			return pbt.Failf("C15/exit0-incomplete-output", "%s; the output is not valid armor: %v", desc, derr)
+		}
+		file = b
+	}
+	h, rest, perr := refage.ParseHeader(file)
+	if perr != nil || len(got) != 16 || len(rest) < 16 {
+		return pbt.Failf("C15/exit0-incomplete-output", "%s; the output has no valid header (%v) or the plugin saw no file key (%d bytes)", desc, perr, len(got))
+	}
+	if !bytes.Equal(refage.HeaderMAC(got, h), h.MAC) {
+		return pbt.Failf("C15/exit0-incomplete-output", "%s; the header MAC is not keyed by the file key given to the plugin", desc)
+	}
+	pt, oerr := refage.OpenPayload(refage.StreamKey(got, rest[:16]), rest[16:])
+	if oerr != nil || !bytes.Equal(pt, plain) {
+		return pbt.Failf("C15/exit0-incomplete-output", "%s; the payload does not decrypt to the input under the file key given to the plugin: %v", desc, oerr)
+	}
+	return nil
+}
+
 func TestC15(t *testing.T) {
 	s := pbt.Start(t, "C15")
 	defer s.Finish()
@@ -1272,6 +1427,25 @@ func TestC15(t *testing.T) {
 		}
 		s.St.Exhaust("recipients / identities read from standard input ('-'), alone and in conflict with the input", int64(n))
 	}, check)
+	pbt.Each(s, "cli-plugin", func(yield func(c15Plug)) {
+		n := 0
+		for _, op := range []string{"enc", "dec"} {
+			for _, b := range []string{"ok", "error", "nothing", "dies", "absent"} {
+				for _, out := range []string{"new", "stdout", "existing"} {
+					for _, l := range []int{0, 100, chunk + 1} {
+						if l > 100 && !(s.Thorough() || b == "ok") {
+							continue
+						}
+						if s.Mine(n) {
+							yield(c15Plug{Op: op, Behave: b, Out: out, PlainLen: l, Armor: n%3 == 0})
+						}
+						n++
+					}
+				}
+			}
+		}
+		s.St.Exhaust("plugin recipients and identities through the age command: {encrypt, decrypt} x plugin {does its part, reports an error, returns nothing, exits at once, is not installed} x output {new file, stdout, existing file} x plaintext lengths", int64(n))
+	}, func(c c15Plug) error { return c15CheckPlug(c, s.St) })
 	pbt.Rapid(s, "cli", s.N(600, 1500), c15Gen, check)
 
 	pbt.Each(s, "cli-passphrase-pty", func(yield func(c15Pty)) {
